@@ -525,6 +525,15 @@ fn case<const PW: u8, const G: i8>(g: &str, reg: Reg, front: Front, rng: &mut Pr
             let n = col.tier.pick(128, 128, 4) as u32;
             for v in 0..n {
                 link.dev.set_rng_next(v);
+                // one start value in four opens with a stubborn stretch: the same value 70-300 times over,
+                // then counting up (a stream that takes its time still reaches every value: the selection
+                // has to wait for it, not settle for a channel the mask disables)
+                if v % 4 == 3 {
+                    link.dev.set_rng_hold(70 + (v * 13) % 230);
+                    col.event("stubborn_rng_stretches");
+                } else {
+                    link.dev.set_rng_hold(0);
+                }
                 let s = link.dev.snapshot();
                 let t = link.txn(&[3], 1, false, &Script::silent());
                 if let (Some(p), Some(u)) = (pending_linkadr, &t.up) {
